@@ -362,6 +362,8 @@ class PathEval:
         fn = self.fn
         name = callee_name(t)
         args = [self.read(st, a) for a in t['args']]
+        if getattr(self, 'on_call', None):
+            self.on_call(st, pos, t, args)
         k = self.key(t['dest'])
         dty = fn.locals[t['dest']['l']] if not t['dest']['p'] else ''
         last = name.rsplit('::', 1)[-1]
